@@ -1,0 +1,13 @@
+//go:build verif
+
+package guardiansets
+
+// Hooks for the runtime monitors in /verif (compiled only with -tags verif).
+
+import "github.com/alephium/wormhole-fork/node/pkg/common"
+
+// VerifUpdateGuardianSets calls the real updateGuardianSets (the append path shared by the
+// periodic updater and by lookups of not yet known indices).
+func (gs *GuardianSets) VerifUpdateGuardianSets(guardianSets []*common.GuardianSet) error {
+	return gs.updateGuardianSets(guardianSets)
+}
